@@ -460,6 +460,7 @@ func (s *Store[H]) flushLoop(ctx context.Context) {
 	// grown enough or if forced.
 	flush := func(headers []H, force bool) {
 		s.ensureInit(headers)
+		verifYield("flush:initialized")
 		// add headers to the pending and ensure they are accessible
 		s.pending.Append(headers...)
 		verifYield("flush:appended")
